@@ -80,6 +80,8 @@ type Interp struct {
 	inPath       bool
 	intDiffOK    int
 	badModels    int
+	ctxBounds    map[*Term]urange
+	ctxMemo      map[int]urange
 	rng          *rand.Rand
 	observed     []string
 	deferMemo    map[*ssa.Function]bool
@@ -1111,8 +1113,13 @@ func (in *Interp) symIndexAddr(arr *ArrObj, off, n int, idx *Term, it types.Type
 }
 
 // symLoad reads arr[off+idx] as an ite chain, grouping equal values.
-func (in *Interp) symLoad(r *SymRef) Value {
+func (in *Interp) symLoad(r0 *SymRef) Value {
 	in.noteSym()
+	r := r0
+	if rg := in.rangeCtx(r0.idx); rg.hi < uint64(r0.n) && (rg.lo > 0 || rg.hi < uint64(r0.n-1)) {
+		// only the entries the index can reach (sound interval analysis)
+		r = &SymRef{arr: r0.arr, off: r0.off + int(rg.lo), n: int(rg.hi-rg.lo) + 1, idx: in.tb.Bin(OpSub, r0.idx, in.tb.Const(64, rg.lo))}
+	}
 	vals := make([]*Term, r.n)
 	count := map[*Term]int{}
 	var z *Term
@@ -1130,6 +1137,25 @@ func (in *Interp) symLoad(r *SymRef) Value {
 			vals[i] = c.v.(*Term)
 		}
 		count[vals[i]]++
+	}
+	// affine segment: table[i] == table[0] + i for every reachable entry (exhaustively checked)
+	if r.n >= 2 && vals[0].IsConst() {
+		w := vals[0].w
+		affine := true
+		for i := 1; i < r.n; i++ {
+			if !vals[i].IsConst() || vals[i].val != (vals[0].val+uint64(i))&mask(w) {
+				affine = false
+				break
+			}
+		}
+		if affine {
+			in.cs.Summaries["table:affine-segment"]++
+			var iw *Term
+			if w <= 64 {
+				iw = in.tb.Extract(r.idx, w-1, 0)
+			}
+			return in.tb.Bin(OpAdd, vals[0], iw)
+		}
 	}
 	var def *Term
 	best := -1
